@@ -52,6 +52,7 @@ impl Monitor for C09 {
         ctx.item_bytes(&s.recipe, &s.bytes);
         ctx.count("evaluations");
         let name = FAMILIES[fam];
+        ctx.phase("nonverdict: analyses being compared (a crash is C05's verdict)");
         let a_ref = ref1::analyze(&s.bytes, true);
         let a_cur = cur::analyze(&s.bytes, true);
         ctx.count(&format!("{}:streams", name));
